@@ -14,7 +14,7 @@ from tiv.srcmodel import AnalysisError
 
 RULES = {
     "MEMO": "memo safety (shared, rules/common.py): a memoised function in this property's files (or called from them) is a function of its "
-            "arguments only (no terminal/ambient/receiver state outside the key) and no caller mutates its result in place",
+            "arguments only (no terminal/ambient/receiver state outside the key) and no caller mutates its result in place; an object returned by a memoised function is followed one hop further (through a caller's returned tuple) and must not be mutated there either",
     "R1": "the accepted language of _check_format_spec - read from the regex literals _FORMAT_SPEC / _NO_VERTICAL_SPEC and the "
           "boolean combination in its `if` - equals the documented grammar "
           "[h_align][width][.(v_align[height]|height)][#[threshold|bgcolor]][+style] (docs/source/guide/formatting.rst) for "
@@ -23,7 +23,7 @@ RULES = {
     "R3": "per style: number of _FORMAT_SPEC field patterns = arity of the field unpacking; keys written into args[...] are keys of "
           "_style_args; keys of _style_args = keyword-only parameters of _render_image minus the internal ones, with equal defaults; "
           "field patterns are pairwise non-overlapping; _get_style_format_spec anchors every field after the first "
-          "(pattern.match at pos=end) and rejects any remainder",
+          "(pattern.match at pos=end) and rejects any remainder; decimal fields are unbounded in length (no finite repeat bound on a digit class in a field pattern)",
     "R5": "the specifier is checked by the class whose style part it carries: _check_format_spec / _check_style_format_spec / _check_style_args are called "
           "through an instance, cls, type(x) or super(), never through a base class named literally",
     "R4": "checking has no side effect: the functions reachable from _check_format_spec store to no attribute/global, and every "
